@@ -50,14 +50,21 @@ SCALARS = {
 }
 
 
-def walk(node, events, payloads, bad):
-    """events: [tag, kind, loc]; payloads: [kind, {attr: value}] in pre-order."""
+def walk(node, events, payloads, bad, seen=None):
+    """events: [tag, kind, loc]; payloads: [kind, {attr: value}] in pre-order.
+    A tree is a TREE: an object that occurs at two positions (e.g. one interned Name for equal identifiers) makes an in-place
+    edit of one position change the other - reported as shared-node."""
     from py_gql.lang import ast as A
     kind = type(node).__name__
     ch = CHILDREN.get(kind)
     if ch is None or not isinstance(node, A.Node):
         bad.append("unknown-node:" + kind)
         return
+    if seen is not None:
+        if id(node) in seen:
+            bad.append("shared-node:" + kind)
+            return
+        seen.add(id(node))
     events.append(["enter", kind, node.loc])
     sc = SCALARS.get(kind)
     if sc:
@@ -68,9 +75,9 @@ def walk(node, events, payloads, bad):
             continue
         if isinstance(v, (list, tuple)):
             for x in v:
-                walk(x, events, payloads, bad)
+                walk(x, events, payloads, bad, seen)
         elif isinstance(v, A.Node):
-            walk(v, events, payloads, bad)
+            walk(v, events, payloads, bad, seen)
         else:
             bad.append("bad-child:%s.%s:%s" % (kind, attr, type(v).__name__))
     events.append(["leave", kind, node.loc])
@@ -78,7 +85,7 @@ def walk(node, events, payloads, bad):
 
 def project(node):
     ev, pl, bad = [], [], []
-    walk(node, ev, pl, bad)
+    walk(node, ev, pl, bad, set())
     return ev, pl, bad
 
 
